@@ -11,10 +11,16 @@ the exhaustive operator correspondence, not of this file.
 -/
 namespace Walrus
 
+/-- block type of the binary format -/
+inductive BT
+  | empty | val (t : String) | idx (n : Nat)
+  deriving Repr, DecidableEq
+
 inductive Arg
   | ref (space : String) (n : Nat)     -- f t g m y x d e : entity (id in the IR, index in wasm); l : label depth
-  | imm (s : String)                   -- any other immediate, as text (bit patterns are decimal)
-  | bt (s : String)                    -- block type: e | v<valtype> | y<type index>
+  | num (n : Nat)                      -- numeric immediate (constants are bit patterns)
+  | imm (s : String)                   -- any other immediate (value types, heap types, …), as text
+  | bt (b : BT)                        -- block type
   deriving Repr, DecidableEq
 
 structure Op where
@@ -49,6 +55,8 @@ structure IdMaps where
   datas : List (Nat × Nat) := []
   elems : List (Nat × Nat) := []
   locals : List (Nat × Nat) := []
+  /-- spaces whose ids are their indices (nothing was deleted or reordered) -/
+  identity : List String := []
   deriving Repr
 
 def assoc (l : List (Nat × Nat)) (k : Nat) : Option Nat :=
@@ -57,6 +65,7 @@ def assoc (l : List (Nat × Nat)) (k : Nat) : Option Nat :=
   | (a, b) :: r => if a = k then some b else assoc r k
 
 def IdMaps.get (m : IdMaps) (sp : String) (id : Nat) : Option Nat :=
+  if m.identity.contains sp then some id else
   if sp = "f" then assoc m.funcs id else if sp = "t" then assoc m.tables id
   else if sp = "g" then assoc m.globals id else if sp = "m" then assoc m.mems id
   else if sp = "y" then assoc m.types id else if sp = "d" then assoc m.datas id
@@ -88,9 +97,9 @@ def mapArgs (m : IdMaps) : List Arg → Option (List Arg)
   | a :: r => (mapArgs m r).map (a :: ·)
 
 def blockTy (m : IdMaps) : SeqTy → Option Arg
-  | .empty => some (.bt "e")
-  | .val t => some (.bt ("v" ++ t))
-  | .multi y => (assoc m.types y).map fun ix => .bt ("y" ++ toString ix)
+  | .empty => some (.bt .empty)
+  | .val t => some (.bt (.val t))
+  | .multi y => (assoc m.types y).map fun ix => .bt (.idx ix)
 
 /-- `branch_target`: position of the target among the live blocks, innermost = 0 -/
 def branchTarget (blocks : List Nat) (s : Nat) : Option Nat :=
